@@ -614,6 +614,15 @@ class SqlalchemyRender:
         step1 = self.prepare_select(from_table.left)
         step2 = self.prepare_select(from_table.right)
 
+        if self.dialect.name == 'sqlite':
+            # SQLite does not read a parenthesised operand of a set operation ("(a UNION b) UNION c"):
+            #  an operand that is itself a set operation is read from a derived table
+            def as_operand(step):
+                if isinstance(step, sa.sql.selectable.CompoundSelect):
+                    return sa.select(sa.literal_column('*')).select_from(step.subquery())
+                return step
+            step1, step2 = as_operand(step1), as_operand(step2)
+
         if isinstance(from_table, ast.Except):
             func = sa.except_ if from_table.unique else sa.except_all
         elif isinstance(from_table, ast.Intersect):
